@@ -73,6 +73,67 @@ let scale_eq (a : z list) (b : z list) =
     let lam = Z.modulo (Z.mul x (inv_mod pz y)) pz in
     List.for_all2 (fun u v -> Z.modulo (Z.mul lam v) pz = u) a b
 
+
+(* ---- chain flavour, finite bars: "the representative becomes a boundary exactly at the death".  Plain Gaussian
+   elimination over Z_p on int arrays (untrusted helper; it can only make the check stricter for the chain flavour) *)
+let inv_int x = int_of_z (inv_mod (zp ()) (z_of_int x))
+(* column-reduce the family w.r.t. the lowest non-zero entry among the rows selected by [sel]; returns the vectors whose
+   selected part vanished (a basis of {v in span : v = 0 on the selected rows}) *)
+let vanishing_on (n : int) (vecs : int array list) (sel : int -> bool) : int array list =
+  let low v = let r = ref (-1) in for i = 0 to n - 1 do if sel i && v.(i) <> 0 then r := i done; !r in
+  let pivots : (int * int array) list ref = ref [] and out = ref [] in
+  List.iter (fun v0 ->
+    let v = Array.copy v0 in
+    let continue = ref true in
+    while !continue do
+      let l = low v in
+      if l < 0 then (continue := false; if Array.exists (fun x -> x <> 0) v then out := v :: !out)
+      else match List.assoc_opt l !pivots with
+        | None -> pivots := (l, v) :: !pivots; continue := false
+        | Some w -> let c = modp (- v.(l) * inv_int w.(l)) in
+          for i = 0 to n - 1 do v.(i) <- modp (v.(i) + c * w.(i)) done
+    done) vecs;
+  !out
+let in_span (n : int) (vecs : int array list) (z : int array) : bool =
+  (* echelon form of vecs on all rows, then reduce z *)
+  let low v = let r = ref (-1) in for i = 0 to n - 1 do if v.(i) <> 0 then r := i done; !r in
+  let pivots : (int * int array) list ref = ref [] in
+  List.iter (fun v0 ->
+    let v = Array.copy v0 in
+    let continue = ref true in
+    while !continue do
+      let l = low v in
+      if l < 0 then continue := false
+      else match List.assoc_opt l !pivots with
+        | None -> pivots := (l, v) :: !pivots; continue := false
+        | Some w -> let c = modp (- v.(l) * inv_int w.(l)) in
+          for i = 0 to n - 1 do v.(i) <- modp (v.(i) + c * w.(i)) done
+    done) vecs;
+  let v = Array.copy z in
+  let ok = ref true and continue = ref true in
+  while !continue do
+    let l = low v in
+    if l < 0 then continue := false
+    else match List.assoc_opt l !pivots with
+      | None -> ok := false; continue := false
+      | Some w -> let c = modp (- v.(l) * inv_int w.(l)) in
+        for i = 0 to n - 1 do v.(i) <- modp (v.(i) + c * w.(i)) done
+  done;
+  !ok
+(* None = fine; Some reason otherwise.  pos = the cells of the representative, death = position of the killing cell *)
+let chain_boundary_at_death (n : int) (d : z list list) (pos : int list) (death : int) : string option =
+  let cols = List.filteri (fun j _ -> j <= death) (List.map (fun c -> Array.of_list (List.map (fun x -> modp (int_of_z x)) c)) d) in
+  let insupp i = List.mem i pos in
+  let w = vanishing_on n cols (fun i -> not (insupp i)) in      (* boundaries of K_{death+1} carried by the cells of the cycle *)
+  if !p = 2 then begin
+    let z = Array.init n (fun i -> if insupp i then 1 else 0) in
+    if in_span n w z then None else Some "is not a boundary of the complex at the death of its bar"
+  end else begin
+    match List.find_opt (fun s -> not (List.exists (fun v -> v.(s) <> 0) w)) pos with
+    | None -> None
+    | Some s -> Some (Printf.sprintf "no boundary of the complex at the death of its bar involves cell %d of the returned support" s)
+  end
+
 let check_dump (lines : string list) : string list =
   let out = ref [] in
   let ok s = out := ("OK " ^ s) :: !out and fail s = out := ("FAIL " ^ s) :: !out in
@@ -327,9 +388,13 @@ let () =
                     else begin
                       births_seen := young :: !births_seen;
                       match bar with
-                      | Some (bd, bb, _) ->
+                      | Some (bd, bb, bdeath) ->
                         if bb <> young then bad := Some (Printf.sprintf "%s: youngest cell at position %d but the bar is born at %d" what young bb)
                         else if bd <> dm then bad := Some (Printf.sprintf "%s: chain of dimension %d for a bar of dimension %d" what dm bd)
+                        else if !kind = "chain" && bdeath >= 0 && bdeath < n then
+                          (match chain_boundary_at_death n d pos bdeath with
+                           | None -> ()
+                           | Some why -> bad := Some (Printf.sprintf "%s: chain flavour: the representative %s (death at position %d)" what why bdeath))
                       | None ->
                         if not (List.exists (fun (bd, bb, _) -> bb = young && bd = dm) exp_bars) then
                           bad := Some (Printf.sprintf "%s: youngest cell at position %d is not the birth of a bar of dimension %d" what young dm)
